@@ -338,7 +338,10 @@ func (w *World) Ev(p *Proc, kind, key, arg string) {
 	hooks := w.Hooks
 	evkey := kind + ":" + key
 	var fire []*Trigger
-	if p != nil {
+	// profile recording and triggers apply only to events a process produces
+	// by its own execution, not to what the kernel does to its descriptors
+	// when it dies
+	if p != nil && p.state == Running && Cur() == p {
 		if w.Spec.Profile {
 			pk := pname + " " + evkey
 			w.EvPass[pk]++
@@ -408,14 +411,18 @@ func (w *World) fire(t *Trigger, p *Proc) {
 	switch act {
 	case "kill":
 		p.Crash(137, "killed by trigger at "+t.Key)
-		p.gate()
+		if Cur() == p {
+			p.gate()
+		}
 	case "exit":
 		var code int
 		fmt.Sscanf(arg, "%d", &code)
 		p.Exit(code)
 	case "stop":
 		p.Stop()
-		p.gate()
+		if Cur() == p {
+			p.gate()
+		}
 	case "panic":
 		panic("simulated panic at " + t.Key)
 	case "sleep":
